@@ -7,6 +7,11 @@
 //! bytes fed to the real decoders are the bytes the theorems talk about.
 use calamine::verif_hooks::utils::{push_column, FTAB, FTAB_ARGC, FTAB_LEN};
 use calamine::verif_hooks::{xls as hx, xlsb as hb};
+use calamine::{Reader, Xls, Xlsb};
+use std::collections::BTreeMap;
+use std::io::Cursor;
+use verif_harness::xlsbw::{BVal, DefinedName, Fmla, XlsbBook, XlsbSheet};
+use verif_harness::xlsw::{Cached, CellV, XlsBook, XlsCell, XlsName, XlsSheet};
 use verif_harness::{driver::Driver, fnv64, guarded, hex, report::Report, rng::Rng, unhex, Args};
 
 // ------------------------------------------------------------------------------------------------
@@ -846,6 +851,10 @@ fn corpus() -> Vec<&'static str> {
         "enc S=5331 N= X=0 | FN 1 19 0",
         "enc S=5331 N= X=0 | SUM A 0 0 0 1 1 9 0 1 1",
         "toks S=5331 N= X=0 | int,1;attrSkip,1,0;int,2;binop,3",
+        "dn 3a0100040002c0",
+        "dn 3b000000000100030004c0",
+        "dn -",
+        "dn 99",
     ]
 }
 
@@ -1046,6 +1055,308 @@ fn report_expr_case(e: &Expr, ctx: &Ctx, drv: &mut Driver, rep: &mut Report, shr
     }
 }
 
+
+// ------------------------------------------------------------------------------------------------
+// stage 2: formulas at their cells, through generated files and `worksheet_formula`
+// ------------------------------------------------------------------------------------------------
+
+/// one generated workbook: context + formula cells `(sheet, row, col, expr)`
+struct FileCase {
+    ctx: Ctx,
+    cells: Vec<(usize, u32, u32, Expr)>,
+}
+
+impl FileCase {
+    fn wire(&self) -> String {
+        let mut s = format!("file {} |", self.ctx.wire());
+        for (i, (sh, r, c, e)) in self.cells.iter().enumerate() {
+            if i > 0 {
+                s.push_str(" ;");
+            }
+            s.push_str(&format!(" {sh} {r} {c} {}", e.wire()));
+        }
+        s
+    }
+    fn parse(words: &[&str]) -> FileCase {
+        let bar = words.iter().position(|w| *w == "|").unwrap();
+        let ctx = Ctx::parse(&words[1..bar].join(" "));
+        let mut cells = vec![];
+        for chunk in words[bar + 1..].split(|w| *w == ";") {
+            if chunk.is_empty() {
+                continue;
+            }
+            let mut it = chunk[3..].iter();
+            cells.push((chunk[0].parse().unwrap(), chunk[1].parse().unwrap(), chunk[2].parse().unwrap(), Expr::parse(&mut it)));
+        }
+        FileCase { ctx, cells }
+    }
+}
+
+fn gen_file_case(rng: &mut Rng, wide: bool) -> FileCase {
+    let ctx = gen_ctx(rng);
+    let o = GenOpts { wide };
+    let mut cells = vec![];
+    for sh in 0..ctx.sheets.len() {
+        // a window of at most 64 x 32 cells anywhere in the sheet (dense Range: bounding box stays small)
+        let max_row: u32 = if wide { 1_048_575 } else { 65_535 };
+        let max_col: u32 = if wide { 16_383 } else { 255 };
+        let r0 = match rng.below(4) {
+            0 => 0,
+            1 => max_row - 63,
+            _ => rng.below(max_row as u64 - 62) as u32,
+        };
+        let c0 = match rng.below(4) {
+            0 => 0,
+            1 => max_col - 31,
+            _ => rng.below(max_col as u64 - 30) as u32,
+        };
+        let k = rng.range(0, 5);
+        let mut used = std::collections::BTreeSet::new();
+        for _ in 0..k {
+            let r = r0 + rng.below(64) as u32;
+            let c = c0 + rng.below(32) as u32;
+            if !used.insert((r, c)) {
+                continue;
+            }
+            let e = loop {
+                let d = rng.range(0, 3) as u32;
+                let e = gen_expr(rng, d, &ctx, &o);
+                let mut t = String::new();
+                e.render(&ctx, &mut t);
+                // a formula whose text is empty cannot be told from "no formula" (xlsb drops it)
+                if !t.is_empty() && (wide || e.fits_xls()) {
+                    break e;
+                }
+            };
+            cells.push((sh, r, c, e));
+        }
+    }
+    FileCase { ctx, cells }
+}
+
+/// canonical dump of a formula range: `start end` + every cell of the rectangle (empty strings included)
+fn dump_range(start: Option<(u32, u32)>, end: Option<(u32, u32)>, get: &dyn Fn(u32, u32) -> String) -> String {
+    match (start, end) {
+        (Some(s), Some(e)) => {
+            let mut out = format!("{},{}..{},{}", s.0, s.1, e.0, e.1);
+            for r in s.0..=e.0 {
+                for c in s.1..=e.1 {
+                    let t = get(r, c);
+                    if !t.is_empty() {
+                        out.push_str(&format!(" [{r},{c}]={t}"));
+                    }
+                }
+            }
+            out
+        }
+        _ => "empty".into(),
+    }
+}
+
+fn expected_dump(cells: &BTreeMap<(u32, u32), String>) -> String {
+    if cells.is_empty() {
+        return "empty".into();
+    }
+    let r0 = cells.keys().map(|k| k.0).min().unwrap();
+    let r1 = cells.keys().map(|k| k.0).max().unwrap();
+    let c0 = cells.keys().map(|k| k.1).min().unwrap();
+    let c1 = cells.keys().map(|k| k.1).max().unwrap();
+    dump_range(Some((r0, c0)), Some((r1, c1)), &|r, c| cells.get(&(r, c)).cloned().unwrap_or_default())
+}
+
+fn impl_dump<R: Reader<Cursor<Vec<u8>>>>(wb: &mut R, sheet: &str) -> String
+where
+    R::Error: std::fmt::Debug,
+{
+    match wb.worksheet_formula(sheet) {
+        Ok(rg) => {
+            // every cell of the returned rectangle, addressed absolutely
+            let (s, e) = (rg.start(), rg.end());
+            let mut extra = String::new();
+            if let (Some(s), Some(e)) = (s, e) {
+                if (e.0 - s.0 + 1) as usize * (e.1 - s.1 + 1) as usize != rg.cells().count() {
+                    extra = " SIZE-MISMATCH".into();
+                }
+            }
+            dump_range(s, e, &|r, c| rg.get_value((r, c)).cloned().unwrap_or_else(|| "<none>".into())) + &extra
+        }
+        Err(e) => format!("err:{e:?}"),
+    }
+}
+
+fn run_file_case(fc: &FileCase, drv: &mut Driver, rep: &mut Report) {
+    let input = fc.wire();
+    rep.case(&input, !fc.cells.is_empty());
+    rep.count("file_case");
+    rep.add("file_formula_cells", fc.cells.len() as u64);
+    // encodings + model / oracle texts per cell
+    struct C {
+        sh: usize,
+        r: u32,
+        c: u32,
+        xls: Option<Vec<u8>>,
+        xlsb: Vec<u8>,
+        oracle: String,
+        mx: String,
+        mb: String,
+    }
+    let mut cs = vec![];
+    for (sh, r, c, e) in &fc.cells {
+        let reply = drv.ask(&format!("enc {} | {}", fc.ctx.wire(), e.wire()));
+        let mut oracle = String::new();
+        e.render(&fc.ctx, &mut oracle);
+        let xls_ok = e.fits_xls() && *r < 65536 && *c < 65536;
+        cs.push(C {
+            sh: *sh,
+            r: *r,
+            c: *c,
+            xls: if xls_ok { Some(unhex(field(&reply, "xls="))[2..].to_vec()) } else { None },
+            xlsb: unhex(field(&reply, "xlsb=")),
+            oracle,
+            mx: decode_model(field(&reply, "mx=")),
+            mb: decode_model(field(&reply, "mb=")),
+        });
+    }
+    let mut lrng = Rng::new(fnv64(input.as_bytes()));
+    let strip = |m: &String| m.strip_prefix("ok:").map(|s| s.to_string()).unwrap_or(format!("<{m}>"));
+    // ---- xls
+    if cs.iter().all(|c| c.xls.is_some()) {
+        let mut book = XlsBook::new();
+        book.xtis = fc.ctx.xti_triples();
+        for n in &fc.ctx.names {
+            book.names.push(XlsName { name: n.clone(), rgce: vec![0x3a, 0, 0, 0, 0, 0, 0], name_wide: None, itab: 0 });
+        }
+        for (i, name) in fc.ctx.sheets.iter().enumerate() {
+            let mut sh = XlsSheet::new(name);
+            for c in cs.iter().filter(|c| c.sh == i) {
+                let cached = match lrng.below(4) {
+                    0 => Cached::Num(1.5),
+                    1 => Cached::Bool(true),
+                    2 => Cached::Err(0x07),
+                    _ => Cached::Str("x".into()),
+                };
+                sh.cells.push(XlsCell::new(c.r as u16, c.c as u16, CellV::Formula { rgce: c.xls.clone().unwrap(), cached }));
+            }
+            // a value cell in the same row, outside the window: must not show up as a formula
+            if let Some(c) = cs.iter().find(|c| c.sh == i) {
+                sh.cells.push(XlsCell::new(c.r as u16, c.c as u16 + 40, CellV::Number(7.0)));
+            }
+            // records in row-major order, as Excel writes them (`Range::from_sparse` expects sorted rows)
+            sh.cells.sort_by_key(|c| (c.row, c.col));
+            book.sheets.push(sh);
+        }
+        let bytes = book.to_bytes(&mut lrng);
+        match guarded(|| Xls::new(Cursor::new(bytes))) {
+            Ok(Ok(mut wb)) => {
+                for (i, name) in fc.ctx.sheets.iter().enumerate() {
+                    let exp: BTreeMap<(u32, u32), String> = cs.iter().filter(|c| c.sh == i).map(|c| ((c.r, c.c), c.oracle.clone())).collect();
+                    let model: BTreeMap<(u32, u32), String> = cs.iter().filter(|c| c.sh == i).map(|c| ((c.r, c.c), strip(&c.mx))).collect();
+                    let imp = guarded(|| impl_dump(&mut wb, name)).unwrap_or_else(|p| format!("panic:{p}"));
+                    let (e, m) = (expected_dump(&exp), expected_dump(&model));
+                    if imp != e {
+                        rep.fail("impl_vs_spec", "file_xls_worksheet_formula", &input, &imp, &m, &e);
+                    }
+                    if imp != m {
+                        rep.fail("impl_vs_model", "file_xls_worksheet_formula", &input, &imp, &m, &e);
+                    }
+                }
+                rep.count("file_xls_opened");
+            }
+            Ok(Err(e)) => rep.fail("impl_vs_spec", "file_xls_open", &input, &format!("err:{e:?}"), "", "opens"),
+            Err(p) => rep.fail("impl_vs_spec", "file_xls_open", &input, &format!("panic:{p}"), "", "opens"),
+        }
+    } else {
+        rep.count("file_xlsb_only");
+    }
+    // ---- xlsb
+    {
+        let mut book = XlsbBook::new();
+        book.extern_sheets = fc.ctx.xtis.iter().map(|&i| (i as i32, i as i32)).collect();
+        for n in &fc.ctx.names {
+            book.names.push(DefinedName { name: n.clone(), rgce: vec![0x3a, 0, 0, 0, 0, 0, 0, 0, 0], itab: 0xFFFF_FFFF });
+        }
+        for (i, name) in fc.ctx.sheets.iter().enumerate() {
+            let mut sh = XlsbSheet::new(name);
+            for c in cs.iter().filter(|c| c.sh == i) {
+                let val = match lrng.below(3) {
+                    0 => BVal::real(1.5),
+                    1 => BVal::Bool(1),
+                    _ => BVal::str("x"),
+                };
+                let cell = sh.set(c.r, c.c, val);
+                cell.fmla = Some(Fmla { flags: 0, rgce: c.xlsb.clone(), rgcb: vec![] });
+            }
+            if let Some(c) = cs.iter().find(|c| c.sh == i) {
+                sh.set(c.r, c.c + 40, BVal::real(7.0));
+            }
+            book.sheets.push(sh);
+        }
+        let bytes = book.to_bytes();
+        match guarded(|| Xlsb::new(Cursor::new(bytes))) {
+            Ok(Ok(mut wb)) => {
+                for (i, name) in fc.ctx.sheets.iter().enumerate() {
+                    let exp: BTreeMap<(u32, u32), String> = cs.iter().filter(|c| c.sh == i).map(|c| ((c.r, c.c), c.oracle.clone())).collect();
+                    let model: BTreeMap<(u32, u32), String> = cs.iter().filter(|c| c.sh == i).map(|c| ((c.r, c.c), strip(&c.mb))).collect();
+                    let imp = guarded(|| impl_dump(&mut wb, name)).unwrap_or_else(|p| format!("panic:{p}"));
+                    let (e, m) = (expected_dump(&exp), expected_dump(&model));
+                    if imp != e {
+                        rep.fail("impl_vs_spec", "file_xlsb_worksheet_formula", &input, &imp, &m, &e);
+                    }
+                    if imp != m {
+                        rep.fail("impl_vs_model", "file_xlsb_worksheet_formula", &input, &imp, &m, &e);
+                    }
+                }
+                rep.count("file_xlsb_opened");
+            }
+            Ok(Err(e)) => rep.fail("impl_vs_spec", "file_xlsb_open", &input, &format!("err:{e:?}"), "", "opens"),
+            Err(p) => rep.fail("impl_vs_spec", "file_xlsb_open", &input, &format!("panic:{p}"), "", "opens"),
+        }
+    }
+}
+
+
+/// `parse_defined_names` (the Lbl formula reader): impl vs model on a raw rgce
+fn run_dn(bytes: &[u8], drv: &mut Driver, rep: &mut Report) {
+    let input = format!("dn {}", hex(bytes));
+    rep.case(&input, bytes.len() > 1);
+    rep.count("defined_name_rgce");
+    let model = {
+        let r = drv.ask(&input);
+        match r.split_once(' ') {
+            Some((ix, h)) => format!("ok:{ix} {}", String::from_utf8(unhex(h)).unwrap()),
+            None => r,
+        }
+    };
+    let imp = match guarded(|| hx::c14_defined_name(bytes)) {
+        Ok(Ok((ix, t))) => format!("ok:{} {t}", ix.map(|i| i.to_string()).unwrap_or("-".into())),
+        Ok(Err(e)) => format!("err:{e}"),
+        Err(_) => "panic".to_string(),
+    };
+    if imp != model {
+        rep.fail("impl_vs_model", "defined_name", &input, &imp, &model, "");
+    }
+}
+
+fn gen_dn(rng: &mut Rng) -> Vec<u8> {
+    let ptg = match rng.below(10) {
+        0..=2 => *rng.pick(&[0x3au8, 0x5a, 0x7a]),
+        3..=5 => *rng.pick(&[0x3bu8, 0x5b, 0x7b]),
+        6 => *rng.pick(&[0x3cu8, 0x5c, 0x7c, 0x3d, 0x5d, 0x7d]),
+        _ => rng.next() as u8,
+    };
+    let n = *rng.pick(&[0usize, 2, 6, 6, 10, 10, 10, 12]);
+    let mut v = vec![ptg];
+    for i in 0..n {
+        // absolute references (flags clear) most of the time: the code prints the column field unmasked
+        let b = rng.next() as u8;
+        v.push(if (i == 5 || i == 9 || i == 7) && rng.chance(3, 4) { b & 0x3F } else { b });
+    }
+    if rng.chance(1, 10) {
+        v.clear();
+    }
+    v
+}
+
 fn run_input(input: &str, drv: &mut Driver, rep: &mut Report, shrunk: &mut u32) {
     let words: Vec<&str> = input.split_whitespace().collect();
     match words[0] {
@@ -1057,6 +1368,8 @@ fn run_input(input: &str, drv: &mut Driver, rep: &mut Report, shrunk: &mut u32) 
             let e = Expr::parse(&mut it);
             report_expr_case(&e, &ctx, drv, rep, shrunk);
         }
+        "dn" => run_dn(&unhex(words[1]), drv, rep),
+        "file" => run_file_case(&FileCase::parse(&words), drv, rep),
         "toks" => {
             // raw token list through the Lean encoders: impl vs model on both encodings
             let reply = drv.ask(input);
@@ -1169,6 +1482,21 @@ fn main() {
                     }
                 }
             }
+        }
+    }
+    if args.replay.is_none() {
+        // defined-name formulas (Lbl rgce)
+        let mut rng = Rng::new(args.seed ^ 0xd0d0);
+        for _ in 0..args.count(2000, 200_000) {
+            let b = gen_dn(&mut rng);
+            run_dn(&b, &mut drv, &mut rep);
+        }
+        // stage 2: formulas at their cells through generated files
+        let mut rng = Rng::new(args.seed ^ 0x5eed_f11e);
+        let nf = args.count(400, 40_000) / if args.n.is_some() { 10 } else { 1 };
+        for i in 0..nf.max(1) {
+            let fc = gen_file_case(&mut rng, i % 3 == 2);
+            run_file_case(&fc, &mut drv, &mut rep);
         }
     }
     rep.add("driver_requests", drv.requests);
